@@ -61,9 +61,24 @@ def bisectorPoints (ps : List (α × α)) : List α :=
 def bisector (ps : List (α × α)) : X α :=
   if sumY ps = 0 then .nan else mean (bisectorPoints ps)
 
-/-! ## C10 — weighted defuzzifiers
+/-! ## C10 — weighted defuzzifiers -/
 
-A *group* is a pair `(w, z)`: aggregated activation degree of a term and the value of the term at `w`. -/
+/-- Activations `(payload, degree)` grouped by a key of the payload: keys in first-occurrence order; a group keeps
+    the first payload with that key and combines, in order, the degrees of all activations with that key
+    (`init d₀`, then `c · dᵢ` for every later one). -/
+def grouped {τ κ δ : Type} [DecidableEq κ] (key : τ → κ) (init : δ → δ) (c : δ → δ → δ) :
+    List (τ × δ) → List (τ × δ)
+  | [] => []
+  | a :: rest =>
+      (a.1, ((rest.filter (fun b => key b.1 = key a.1)).map Prod.snd).foldl c (init a.2))
+        :: grouped key init c (rest.filter (fun b => key b.1 ≠ key a.1))
+termination_by l => l.length
+decreasing_by
+  simp only [List.length_cons]
+  simp
+  exact Nat.lt_succ_of_le (le_trans (List.length_filter_le _ _) (by simp))
+
+/-! A *weighted value* is a pair `(w, z)`: aggregated activation degree of a group and the value of its term at `w`. -/
 
 def sumW (gs : List (α × α)) : α := (gs.map Prod.fst).sum
 def sumWZ (gs : List (α × α)) : α := (gs.map (fun g => g.1 * g.2)).sum
